@@ -112,6 +112,12 @@ def _worker(job):
         if profile == 'C10':
             from . import c10
             return c10.run_seed(seed, tier, gopts)
+        if profile == 'C13':
+            from . import c13
+            return c13.run_seed(seed, tier, gopts)
+        if profile == 'C14':
+            from . import c14
+            return c14.run_seed(seed, tier, gopts)
         if profile == 'C03':
             from . import c03
             return c03.run_seed(seed, tier, gopts)
